@@ -146,6 +146,17 @@ func (dht *FullRT) bulkMessageSend(ctx context.Context, keys []peer.ID, fn func(
   loop over keys invariant keySuccesses != nil && allT(k, peer.ID, imp(has(keySuccesses, k), keySuccesses[k] != nil))
   loop over keySuccesses invariant allT(k, peer.ID, imp(has(keySuccesses, k), keySuccesses[k] != nil))
 
+# one bulk-send worker: reports to the wait group on every exit, and never
+# carries a per-key lock from one key to the next (a leaked read lock would
+# block the accounting of every later answer for that key: the operation
+# would never return, whatever the context does)
+funclit 0 in (dht *FullRT) bulkMessageSend(ctx context.Context, keys []peer.ID, fn func(ctx context.Context, target, k peer.ID) error) error
+  props C03 C16
+  ensures [accounted] tagged("wgdone:wg")
+  # ASSUMED (listed): the keys of a work message are keys of keySuccesses (the
+  # sender builds the messages from sortedKeys, the key list of that map)
+  ghost at assign(keyReport): assume(keyReport != nil)
+
 # C14: Close cancels, waits for both loops, then closes the stores that exist.
 func (dht *FullRT) Close() error
   props C14
